@@ -208,3 +208,40 @@ CHECKS["C17"] = dict(
                  "a shard whose input runs > 20 s stops and reports inconclusive with the witness path; non-termination is not concluded from wall-clock alone"],
     require=dict(decoder_calls=1000000, cut_points=10000),
 )
+
+CHECKS["C09"] = dict(
+    level="exploration",
+    level_text=("runtime monitor under -tags binary_log: every event handed to the writer is parsed by the harness's own RFC 8949 well-formedness "
+                "parser (exact consumption, reserved additional information, break placement, chunk types, map parity) and its ordered (text key, "
+                "value) pairs are compared with the logged values in the documented representation (integers exact incl. unsigned >= 2^63, floats "
+                "bit-exact, tags 1/260/261/262/263/63); the run reports which length / width boundaries were observed."),
+    technique="runtime monitoring: independent RFC 8949 parser + documented-representation matcher on writer bytes of the binary build",
+    stages=lambda tier: [dict(variant="vh-bin", cmd="c09", shards=16, timeout=3000)],
+    rule=("one case = one seeded modelled program (settings x derivation chain x events x nested field calls) run under binary_log; non-trivial = wrote "
+          "an event and has a container; distinct by hash of (settings, event bytes)"),
+    assumptions=["nil may be encoded as simple value 22 or as embedded JSON null (tag 262), both decode to null",
+                 "CBOR text strings carry the logged bytes verbatim (UTF-8 validity of text strings is not required by well-formedness)",
+                 "shortest-form (preferred) serialization of arguments is not demanded"],
+    replay=replay_index("c09", "vh-bin"),
+    require=dict(events_written=1000, strlen_255=1, strlen_256=1, int_arg_65536=1),
+)
+
+CHECKS["C08"] = dict(
+    level="exploration",
+    level_text=("differential runtime monitor: the same seeded program list is executed by the JSON build and by the binary_log build (whose output "
+                "goes through the bundled decoder); for every event the decoded text must be one valid JSON object line with the same ordered "
+                "keys, and each value is compared by the kind that was logged (integers as big numbers, floats by width, times as instants within "
+                "1 us, text/[]byte decoded, embedded JSON verbatim, documented text forms)."),
+    technique="runtime monitoring: differential execution of JSON and binary builds on one seeded workload, kind-aware value comparison",
+    stages=lambda tier: [dict(variant="vh", cmd="c08-emit", shards=16, timeout=3000, phase=0),
+                         dict(variant="vh-bin", cmd="c08-emit", shards=16, timeout=3000, phase=0),
+                         dict(variant="vh", cmd="c08-compare", shards=16, timeout=3000, phase=1)],
+    rule=("one case = one seeded modelled program restricted to the statement's domain (FloatingPointPrecision -1, 4/16-byte IPs, 6-byte MACs, "
+          "canonical prefixes, times in 1970-2100); evaluations also counts recorded events of the two emit phases; non-trivial = an event was "
+          "compared and the program has a container; distinct by hash of (settings, JSON-build bytes)"),
+    assumptions=["both builds generate the identical program list from the seed (the generator does not depend on the encoding)",
+                 "the JSON side of a time value must be the C02 rendering of the logged instant; the decoded binary side must be within 1 us of it"],
+    replay=None,
+    require=dict(events_compared=1000),
+)
+del CHECKS["C08"]["replay"]
